@@ -249,6 +249,100 @@ def rule_R4(ctx, prj):
         ctx.ok("R4", fm.site(), "format_measurement prints start.line, start.column, value, unit_name unchanged")
 
 
+def rule_R7_pipelines(ctx, prj) -> bool:
+    """what lex / scan_file / CheckResult.add are handed for the same (not UTF-8) file in scan and in check"""
+    from ..absint import PyRaise, Sym, Unknown
+    from .. import walk_eval as W
+    ctx.rule("R7", "the same file (bytes that are not valid UTF-8) evaluated through scan_path and through check_command: both hand "
+                   "lex the same lexer, the same decoded text and filter_comments=False, both hand scan_file lex's result and the "
+                   "language registered for the lexer; check lists exactly the measured functions longer than 30 lines, longest "
+                   "first, as the very objects scan_file returned (lengths 31, 7, 64, 30, 31 -> 64, 31, 31)", floor=4)
+    c = prj.func(f"{CK}:check_file")
+    try:
+        labs, ms = W.pipelines(prj)
+        sig = {}
+        for name, lab in labs.items():
+            lx = [x for x in lab.calls if x[0] == "lex"]
+            sf = [x for x in lab.calls if x[0] == "scan_file"]
+            if len(lx) != 1 or len(sf) != 1:
+                ctx.viol("R7", f"{name}/pipeline", c.site(), f"{name}: the file is lexed {len(lx)} time(s) and measured {len(sf)} time(s); required once each")
+                return True
+            b = lx[0][1]
+            toks, lang = (sf[0][1] + [None, None])[:2]
+            if "tokens" in sf[0][2]:
+                toks = sf[0][2]["tokens"]
+            if "language" in sf[0][2]:
+                lang = sf[0][2]["language"]
+            sig[name] = dict(code=b.get("code"), filter_comments=b.get("filter_comments"), lexer=getattr(b.get("lexer"), "fields", {}).get("name"),
+                             tokens_from_lex=toks is lx[0][2], language=getattr(lang, "name", lang))
+        a, b = sig["scan"], sig["check"]
+        if a["code"] != b["code"]:
+            ctx.viol("R7", "check_file/decoding", c.site(), f"scan lexes {a['code']!r} but check {b['code']!r}: the two decode the file differently")
+        else:
+            ctx.ok("R7", c.site(), "decoding: both lex the same text of a file that is not valid UTF-8 (neither crashes)")
+        if a["filter_comments"] is not False or b["filter_comments"] is not False:
+            ctx.viol("R7", "check_file/lex-filter", c.site(), f"scan calls lex(..., filter_comments={a['filter_comments']}), check lex(..., filter_comments={b['filter_comments']}); required False in both: "
+                     f"comment tokens (and with them the suppression marker) are visible to only one of the two, or to none")
+        else:
+            ctx.ok("R7", c.site(), "lexing: lex(lexer, text, False) in both")
+        for name in ("scan", "check"):
+            s_ = sig[name]
+            if not s_["tokens_from_lex"]:
+                ctx.viol("R7", f"{name}/tokens", c.site(), f"{name}: scan_file does not receive lex's result")
+            elif s_["language"] != "language:" + str(s_["lexer"]):
+                ctx.viol("R7", f"{name}/language", c.site(), f"{name}: scan_file receives the language {s_['language']!r} for a file lexed as {s_['lexer']!r}")
+            else:
+                ctx.ok("R7", c.site(), f"{name}: scan_file(lex's tokens, Languages.by_name[{s_['lexer']!r}])")
+        adds = [x for x in labs["check"].calls if x[0] == "add"]
+        if len(adds) != 1:
+            ctx.viol("R7", "check_file/listed-measurements", c.site(), f"CheckResult.add is called {len(adds)} time(s) for one file")
+        else:
+            lst = adds[0][1][1] if len(adds[0][1]) > 1 else adds[0][2].get("measurements")
+            lst = list(lst.rest()) if hasattr(lst, "rest") else list(lst)
+            want = [ms[2], ms[0], ms[4]]
+            if [x.fields.get("value") if isinstance(x, Sym) else x for x in lst] != [64, 31, 31]:
+                ctx.viol("R7", "check_file/listed-measurements", c.site(), f"for measured lengths 31, 7, 64, 30, 31 check lists {[getattr(x, 'fields', {}).get('value', x) for x in lst]}; "
+                         f"required the functions longer than 30 lines, longest first: [64, 31, 31]")
+            elif not all(any(x is m for m in ms) for x in lst):
+                ctx.viol("R7", "check_file/listed-measurements", c.site(), "check lists copies or rebuilt measurements, not the objects scan_file returned")
+            else:
+                ctx.ok("R7", c.site(), "check lists scan_file's own measurement objects with length > 30, longest first")
+    except (Unknown, PyRaise) as e:
+        ctx.info(f"pipelines not evaluable ({type(e).__name__}: {e}); structural rules R3/R4 decide")
+        ctx.rule("R7", "pipelines not evaluable by the interpreter: structural rules R3/R4 decide", floor=0)
+        ctx.violations[:] = [v for v in ctx.violations if v.rule != "R7"]
+        return False
+    rule_R4_print(ctx, prj)
+    return True
+
+
+def rule_R4_print(ctx, prj):
+    """format_measurement prints the measurement's own fields (evaluated with the rich calls recorded)"""
+    from ..absint import PyRaise, Sym, Unknown
+    from ..evalsite import deep_strs, run_site
+    fm = prj.func("codelimit.common.utils:format_measurement")
+    ctx.rule("R4", "format_measurement prints start.line, start.column, value and unit_name of the measurement it is given "
+                   "(evaluated on a measurement with distinct figures)", floor=1)
+    m = Sym("measurement", unit_name="fn_tag", value=4711, start=Sym("loc", line=1234, column=56), end=Sym("loc", line=7777, column=88))
+    try:
+        run = run_site(prj, fm, ["some/path.py", m])
+        texts = deep_strs([run.result] + [a for _, aa, kw in run.effects for a in list(aa) + list(kw.values())])
+        joined = " ".join(texts)
+        missing = [w for w in ("some/path.py", "1234", "56", "4711", "fn_tag") if w not in joined]
+        markup = [(nm, a) for nm, aa, kw in run.effects for a in list(aa) + list(kw.values())
+                  if isinstance(a, str) and "some/path.py" in a and (nm.endswith("from_markup") or nm.endswith(".print") or nm.endswith("rich.print") or nm.endswith("markup.render"))]
+        if markup:
+            ctx.viol("R4", "format_measurement/path-as-markup", fm.site(), f"the file path is handed to {markup[0][0]} inside the string {markup[0][1][:60]!r}, which interprets console markup: "
+                     f"a path segment in square brackets (pages/[slug]/page.ts) is swallowed as a style tag and the line names a file that was not measured")
+        elif missing:
+            ctx.viol("R4", "format_measurement/fields", fm.site(), f"the printed line lacks {missing} of (path, start line 1234, start column 56, length 4711, name fn_tag)")
+        else:
+            ctx.ok("R4", fm.site(), "format_measurement: path, start line, start column, length and name of the measurement")
+    except (Unknown, PyRaise) as e:
+        ctx.info(f"format_measurement not evaluable ({e})")
+        ctx.ok("R4", fm.site(), "format_measurement not evaluable: not judged")
+
+
 def rule_R6_evaluated(ctx, prj) -> bool:
     from ..absint import PyRaise, Unknown
     from .. import walk_eval as W
@@ -308,5 +402,7 @@ def run(ctx, prj: Project):
     if not rule_R6_evaluated(ctx, prj):
         w = rule_R1(ctx, prj)
         rule_R2(ctx, prj, w)
+    if rule_R7_pipelines(ctx, prj):
+        return
     rule_R3(ctx, prj)
     rule_R4(ctx, prj)
